@@ -109,4 +109,19 @@ fn float_std_floor_is_spec() {
     }
 }
 
+// @ob props=C20 tier=quick kind=P cfg=core-libm,core-none,core-mm timeout=1500
+// @fn libm::recip_sqrt ; fallback::recip_sqrt ; mm::recip_sqrt ; RecipSqrt::recip_sqrt
+// @clause the reciprocal square root of the active backend is finite and positive for every positive finite input, subnormals included (no overflow to infinity, no NaN); its accuracy against std is not decided
+#[cfg(not(feature = "std"))]
+#[cfg(not(verif_skip_float_recip_sqrt_finite))]
+#[kani::proof]
+#[kani::unwind(40)]
+fn float_recip_sqrt_finite() {
+    let x: core::primitive::f32 = kani::any();
+    kani::assume(x > 0.0 && x.is_finite());
+    let r = f32::recip_sqrt(x);
+    kani::cover!(x < 1.0e-39);
+    assert!(r.is_finite() && r > 0.0);
+}
+
 include!("gen/dispatch_float.rs");
